@@ -59,7 +59,8 @@ MATRIX = _matrix()
 
 
 def streams(ctx):
-    return [("matrix", len(MATRIX)), ("random", ctx.scale(1800, 10000)), ("shapes", ctx.scale(900, 6000)), ("big", ctx.scale(60, 800))]
+    return [("matrix", len(MATRIX)), ("random", ctx.scale(1800, 10000)), ("shapes", ctx.scale(900, 6000)), ("big", ctx.scale(60, 800)), ("similar", ctx.scale(200, 2500)),
+            ("shared_ir", ctx.scale(300, 4000))]
 
 
 def gen_case(ctx, stream, idx):
@@ -67,6 +68,13 @@ def gen_case(ctx, stream, idx):
     if stream == "matrix":
         tk, dk, n, pos = MATRIX[idx]
         return irgen.matrix_ir(r, tk, dk, n, pos, with_return=idx % 2 == 1)
+    if stream == "similar":
+        return irgen.similar_ir(r, type_kinds=CORE_T, default_kinds=CORE_D)
+    if stream == "shared_ir":
+        # several targets emitted one after the other from the SAME description object (what `sync` and any caller that
+        # generates class + function + CLI from one interface does): every one of them must expose the description
+        return irgen.rand_ir(r, type_kinds=CORE_T + ("list", "union", "optional"), default_kinds=CORE_D + ("absent",),
+                             nparams=r.randint(1, 6), suffix_defaults=False)
     if stream == "big":
         return irgen.rand_ir(r, type_kinds=CORE_T, default_kinds=CORE_D, nparams=r.randint(10, 24), max_params=24)
     if stream == "shapes":
@@ -304,21 +312,39 @@ def run_case(ctx, P, stream, idx):
     ir0 = gen_case(ctx, stream, idx)
     sh = irgen.shape(ir0)
     compound = [p["typ"] for p in ir0["params"].values() if p["typ"] in irgen.NESTED_TYPES and "Literal[" not in p["typ"]]
-    for n, (fmt, cfg) in enumerate(configs()):
+    confs = list(configs())
+    shared = None
+    if stream == "shared_ir":
+        shared = deepcopy(ir0)
+        r_ = ctx.rng(stream, idx, "order")
+        style = r_.choice(STYLES)
+        confs = [(f, c) for f, c in confs if c["docstring_format"] == style and (f != "function" or (
+            c["type_annotations"] and c["emit_as_kwonlyargs"]))]
+        r_.shuffle(confs)
+    for n, (fmt, cfg) in enumerate(confs):
         if fmt == "argparse" and compound:
             continue  # argparse has no notation for compound types (narrowed: C02's documented findings)
         ir = ir0
-        if fmt == "function":
+        if fmt == "function" and shared is not None:
+            cfg = dict(cfg, function_type="static")
+        elif fmt == "function":
             ft, ir_type = FUNCTION_TYPES[(idx + n) % len(FUNCTION_TYPES)]
             cfg = dict(cfg, function_type=ft)
             if ir_type is not None:
                 ir = dict(deepcopy(ir0), type=ir_type)
                 cfg["ir_type"] = ir_type
+        if shared is not None:
+            cfg = dict(cfg, emitted_as_number=n + 1)
         ctxd = {"stream": stream, "idx": idx, "ir": ir}
         P.case({"ir": ir, "fmt": fmt, "cfg": cfg}, nontrivial=bool(ir["params"]), klass="%s/%s" % (stream, fmt),
                sample={"format": fmt, "options": cfg, "shape": sh, "ir": ir})
         try:
-            node, src = hops.emit(ir, fmt, **{k: v for k, v in cfg.items() if k != "ir_type"})
+            if shared is not None:
+                P.monitor("shared-description.emitted")
+                node, src = hops.emit(shared, fmt, _share=True, **{k: v for k, v in cfg.items() if k not in (
+                    "ir_type", "emitted_as_number")})
+            else:
+                node, src = hops.emit(ir, fmt, **{k: v for k, v in cfg.items() if k != "ir_type"})
         except Exception as e:
             dev(P, ctxd, fmt, cfg, "emit", "raises:" + type(e).__name__, "-", "-", repr(e)[:200], None)
             continue
